@@ -5,7 +5,8 @@
 // Obligations (fermionic term R/(z-P)):
 //   value(z) == R/(z-P) (textbook complex quotient);   conj(value(z)) == conj(R)/(conj z - P);
 //   value(tau) == -R E(-tau P)/(1 + E(-beta P)) on BOTH branches (Pole > 0 and Pole <= 0);
-//   value(0) + value(beta) == -R;    R >= 0  ==>  value(tau) <= 0;    Im value(i w) has the sign of -R for w > 0.
+//   value(0) + value(beta) == -R;    R >= 0  ==>  value(tau) <= 0;    Im value(i w) has the sign of -R for w > 0;
+//   floating-point range: no exp argument above 709 for any beta > 0, tau in [0,beta], pole (no overflow at low temperature).
 // Bosonic term: value(z) == -R/(z-P);  value(tau) == R E(-tau P)/(1 - E(-beta P));  value(0) - value(beta) == R.
 #include "verif.h"
 #include "pomerol/GreensFunctionPart.h"
@@ -39,13 +40,17 @@ extern "C" void h_main() {
         double ebp = __v_exp_lemma_inv(beta * P);                  // E(bP) E(-bP) = 1
         double etp = __v_exp_lemma_add((beta - tau) * P, -beta * P);   // E((b-t)P) E(-bP) = E(-tP) ... returns E(-tP)
         (void)ebp;
+        __v_exp_scope_begin();
         ComplexType g = tp(tau, beta);
+        ComplexType g0 = tp(0.0, beta), gb = tp(beta, beta);
+        // floating-point range (C11 is quantified over large beta): whatever beta, tau in [0,beta] and the pole are, the term never hands
+        // exp an argument that can overflow (the implementation picks the branch by the sign of the pole for exactly this reason)
+        __v_check_exp_no_overflow("fermionic term in imaginary time");
         double refv = -Rr * etp / (1 + std::exp(-beta * P));
         check_eq(g.real(), refv, "G_term(tau) == -R E(-tau P)/(1 + E(-beta P)) on both branches");
         check(g.imag() == 0, "real residue gives a real imaginary-time value");
         if (P > 0) reach("positive_pole_branch"); else reach("non_positive_pole_branch");
         if (Rr >= 0) check(g.real() <= 0, "R >= 0 ==> G_term(tau) <= 0");
-        ComplexType g0 = tp(0.0, beta), gb = tp(beta, beta);
         check_eq(g0.real() + gb.real(), -Rr, "G_term(0+) + G_term(beta-) == -R");
     }
     // ---------------------------------------------------------------- bosonic term
@@ -62,9 +67,11 @@ extern "C" void h_main() {
             double ebm = std::exp(-beta * P);
             assume(ebm != 1);                 // E(-beta P) = 1 only for P = 0 (not derivable for an uninterpreted E)
             assume(std::exp(beta * P) != 1);
+            __v_exp_scope_begin();
             ComplexType g = tp(tau, beta);
-            check_eq(g.real(), Rr * etp / (1 - ebm), "chi_term(tau) == R E(-tau P)/(1 - E(-beta P)) on both branches");
             ComplexType g0 = tp(0.0, beta), gb = tp(beta, beta);
+            __v_check_exp_no_overflow("bosonic term in imaginary time");
+            check_eq(g.real(), Rr * etp / (1 - ebm), "chi_term(tau) == R E(-tau P)/(1 - E(-beta P)) on both branches");
             check_eq(g0.real() - gb.real(), Rr, "chi_term(0) - chi_term(beta) == R");
             reach("bosonic_tau");
         }
